@@ -22,21 +22,34 @@ type FileTap struct {
 }
 
 var taps sync.Map // *os.File -> *FileTap
+var pathTaps sync.Map // file name -> *FileTap, for files the library opens itself
+
+func lookupTap(w any) (*FileTap, bool) {
+	if v, ok := taps.Load(w); ok {
+		return v.(*FileTap), true
+	}
+	if f, ok := w.(*os.File); ok {
+		if v, ok := pathTaps.Load(f.Name()); ok {
+			return v.(*FileTap), true
+		}
+	}
+	return nil, false
+}
 
 func init() {
 	carv2.VerifSetWriteHook(func(w io.WriterAt, off int64, b []byte) (int, error, bool) {
-		v, ok := taps.Load(any(w))
+		tp, ok := lookupTap(any(w))
 		if !ok {
 			return 0, nil, false
 		}
-		return v.(*FileTap).onWrite(w, off, b)
+		return tp.onWrite(w, off, b)
 	})
 	carv2.VerifSetTraceHook(func(w any, kind string, off int64, b []byte) {
-		v, ok := taps.Load(w)
+		tp, ok := lookupTap(w)
 		if !ok {
 			return
 		}
-		v.(*FileTap).onTrace(kind, off, b)
+		tp.onTrace(kind, off, b)
 	})
 }
 
@@ -47,6 +60,14 @@ func Tap(f *os.File) *FileTap {
 	return t
 }
 func Untap(f *os.File) { taps.Delete(any(f)) }
+
+// TapPath attaches a tap to whatever *os.File the library opens under that name.
+func TapPath(name string) *FileTap {
+	t := &FileTap{}
+	pathTaps.Store(name, t)
+	return t
+}
+func UntapPath(name string) { pathTaps.Delete(name) }
 
 func (t *FileTap) SetFaults(fs []Fault) {
 	t.mu.Lock()
